@@ -93,6 +93,30 @@ def _body_kind(func, cmp):
     return "unknown", neg
 
 
+def _stored_count_one_sided(ctx, f):
+    """In a two-operand simulator written as 'loop over the first operand's legs':
+    the count stored for a leg that may be shared must depend on the second
+    operand too.  Returns the offending store node or None."""
+    ps = [p for p in f.positional if p not in ("self",)]
+    if len(ps) < 2 or not (ps[0].startswith("legs") and ps[1].startswith("legs")):
+        return None
+    a, b = ps[0], ps[1]
+    fl = ctx.flow(f)
+    for n in walk_local(f.node):
+        if isinstance(n, ast.For) and a in ast.unparse(n.iter):
+            for st in ast.walk(n):
+                if isinstance(st, ast.Assign) and isinstance(st.targets[0], ast.Subscript) and \
+                        not isinstance(st.value, ast.Constant):
+                    tgt = ast.unparse(st.targets[0].value)
+                    if "legs" not in tgt:
+                        continue
+                    deps = fl.deps(st.value, fl.node_of_expr(st))
+                    if not any(d[0] == "param" and d[1] == b for d in deps):
+                        return st
+            break
+    return None
+
+
 def rule_surv(ctx):
     r = RuleResult("C18-SURV", "index-survival predicates agree", 14)
     for f in _scope(ctx):
@@ -148,13 +172,43 @@ def rule_surv(ctx):
                     not isinstance(n.value, ast.Constant):
                 if any(k in ast.unparse(n.target) for k in ("count", "cnt", "ic", "jc")):
                     sums.append(n)
-        if sums:
-            r.ok(key, C.loc(f, sums[0]), f"{what}: counts of a shared index are added",
-                 expr=C.unparse(sums[0]))
+        stale = _stored_count_one_sided(ctx, f)
+        if sums and stale is None:
+            r.ok(key, C.loc(f, sums[0]), f"{what}: counts of a shared index are added and the "
+                 "merged count is what is stored", expr=C.unparse(sums[0]))
+        elif sums:
+            r.violation(key, C.loc(f, stale), f"{what}: the survival test uses the merged count "
+                        "but the count stored on the surviving leg is one operand's own count, so "
+                        "a later step never sees the index complete", stored=C.unparse(stale))
         else:
             r.violation(key, f.loc, f"{what}: the count of an index shared by both operands is "
                         "not the sum of both sides' counts, so an index on three or more tensors "
                         "(or also in the output) is dropped too early or kept forever")
+    # leaf legs carry occurrence counts (the survival test compares them with the
+    # global table): no constant may be substituted for a count
+    tc = ctx.p.cls(C.CORE, "ContractionTree")
+    cl = tc.lookup("compute_leaf_legs")
+    key = ctx.key(cl, "C18-SURV", "leaf-counts")
+    bad = None
+    for n in walk_local(cl.node):
+        if isinstance(n, ast.Assign) and any(isinstance(t, ast.Name) and t.id == "legs"
+                                             for t in n.targets):
+            v = n.value
+            if isinstance(v, ast.Call) and (dotted(v.func) or "").endswith("fromkeys"):
+                bad = n
+            elif isinstance(v, ast.DictComp) and isinstance(v.value, ast.Constant):
+                bad = n
+            elif isinstance(v, ast.Call) and dotted(v.func) == "dict" and v.args and \
+                    isinstance(v.args[0], (ast.GeneratorExp, ast.ListComp)) and \
+                    isinstance(v.args[0].elt, ast.Tuple) and \
+                    isinstance(v.args[0].elt.elts[-1], ast.Constant):
+                bad = n
+    if bad is not None:
+        r.violation(key, C.loc(cl, bad), "leaf legs are rebuilt with a constant count: an index "
+                    "repeated on one tensor never reaches its global count in the ancestors and "
+                    "is kept (and paid for) up to the root", stmt=C.unparse(bad))
+    else:
+        r.ok(key, cl.loc, "leaf legs keep per-index occurrence counts")
     # hypergraph: structural survival
     hg = ctx.p.cls(C.HYPERGRAPH, "HyperGraph")
     for name in ("contract", "compute_contracted_inds"):
@@ -223,13 +277,38 @@ def rule_drop(ctx):
     cp = ctx.p.cls(C.BASIC, "ContractionProcessor")
     # entries that report a cost: construct the processor with track_flops=True
     reporters = []
+    late = []
     for f in ctx.p.all_funcs({C.BASIC}):
+        if f.cls is cp:
+            continue
+        ctor_on = None
         for call in walk_local(f.node):
             if isinstance(call, ast.Call) and dotted(call.func) == "ContractionProcessor":
                 for k in call.keywords:
                     if k.arg == "track_flops" and isinstance(k.value, ast.Constant) and k.value.value:
-                        reporters.append(f)
-    C.require(reporters, "no cost-reporting entry (track_flops=True) found")
+                        ctor_on = call
+        sets = [n for n in walk_local(f.node) if isinstance(n, ast.Assign)
+                and any(isinstance(t, ast.Attribute) and t.attr == "track_flops" for t in n.targets)
+                and isinstance(n.value, ast.Constant) and n.value.value]
+        if ctor_on is not None or sets:
+            reporters.append(f)
+        if ctor_on is None and sets:
+            # tracking switched on after construction: every contracting call on the
+            # processor must come after it
+            fl = ctx.flow(f)
+            on = fl.cfg.containing(sets[0], f.module.parents)
+            for n, call in fl.calls():
+                if isinstance(call.func, ast.Attribute) and call.func.attr in (
+                        "simplify", "contract_nodes", "optimize_greedy", "optimize_optimal",
+                        "optimize_remaining_by_size", "simplify_scalars", "simplify_hadamard"):
+                    if not fl.cfg.dominates(on.id, n.id):
+                        late.append((f, call))
+    C.require(reporters, "no cost-reporting entry (track_flops) found")
+    for f, call in late:
+        r.violation(ctx.key(f, "C18-DROP", "tracking-starts-late"), C.loc(f, call),
+                    f"{C.unparse(call.func)}() can perform contractions that become part of the "
+                    "returned path before flops tracking is switched on: the reported cost "
+                    "misses them")
     reach = set()
     for f in reporters:
         for g in ctx.r.reachable_funcs([f]):
